@@ -59,6 +59,7 @@ static void dumpSpT(Dump & o, const AI::SparseTable2D & m) {
     for (int k = 0; k < m.outerSize(); ++k) for (AI::SparseTable2D::InnerIterator it(m, k); it; ++it) { o.n(it.row()); o.n(it.col()); o.n(it.value()); }
 }
 
+static void dumpObj(Dump & o, const AI::Vector & v) { for (long i = 0; i < v.size(); ++i) o.d(v[i]); }
 static void dumpObj(Dump & o, const M::Model & m) { o.d(m.getDiscount()); dumpMat3(o, m.getTransitionFunction()); dumpMat(o, m.getRewardFunction()); }
 static void dumpObj(Dump & o, const M::SparseModel & m) { o.d(m.getDiscount()); for (auto & x : m.getTransitionFunction()) dumpSp(o, x); dumpSp(o, m.getRewardFunction()); }
 template <class MM> static void dumpObj(Dump & o, const PO::Model<MM> & m) { dumpObj(o, static_cast<const MM &>(m)); dumpMat3(o, m.getObservationFunction()); }
@@ -208,6 +209,9 @@ template <> struct Gen<M::SparseExperience> {
         return e;
     }
 };
+template <> struct Gen<AI::Vector> {
+    static AI::Vector make(Rng & r, Shape sh, int st) { AI::Vector v(sh.S); for (size_t i = 0; i < sh.S; ++i) v[i] = genVal(r, st); return v; }
+};
 template <> struct Gen<M::Policy> {
     static M::Policy make(Rng & r, Shape sh, int st) { return M::Policy(genProbMat(r, sh.S, sh.A, st)); }
 };
@@ -247,6 +251,19 @@ static long decisionDiffs(const PO::Policy & a, const PO::Policy & b, Rng & r, S
     return diffs;
 }
 
+// decisions of the ORIGINAL policy at the simplex corners, every horizon: (h, s, action, entry id).  At a corner the dot
+// product is the vector's component itself, so the exact-arithmetic model must agree with findBestAtPoint bit for bit.
+template <class T> static void emitDecisions(Line & l, const T &, Shape) { l << (size_t)0; }
+static void emitDecisions(Line & l, const PO::Policy & p, Shape sh) {
+    l << (size_t)((p.getH() + 1) * sh.S);
+    for (unsigned h = 0; h <= p.getH(); ++h)
+        for (size_t s = 0; s < sh.S; ++s) {
+            PO::Belief b(sh.S); b.setZero(); b[s] = 1.0;
+            auto [a, id] = p.sampleAction(b, h);
+            l << (size_t)h << s << a << id;
+        }
+}
+
 // ------------------------------------------------------------------ one load
 static std::string hexOf(const std::string & s) {
     static const char * H = "0123456789abcdef";
@@ -263,10 +280,16 @@ template <class T> static std::string exactOf(const T & x) { Dump d(false); dump
 template <class T> static T cloneOf(const T & x) { return T(x); }
 template <> M::Policy cloneOf<M::Policy>(const M::Policy & x) { return M::Policy(static_cast<const M::PolicyInterface &>(x)); }
 
+template <class T> static void writeTo(std::ostream & os, const T & x) { os << x; }
+template <class T> static void readFrom(std::istream & is, T & x) { is >> x; }
+// the bare building block of src/Utils/IO.cpp that no operator<< / operator>> uses
+template <> void writeTo<AI::Vector>(std::ostream & os, const AI::Vector & x) { AI::write(os, x); }
+template <> void readFrom<AI::Vector>(std::istream & is, AI::Vector & x) { AI::read(is, x); }
+
 // returns 0 good / 1 failbit / 2 exception
 template <class T> static int loadInto(T & dest, const std::string & text) {
     std::istringstream is(text);
-    try { is >> dest; } catch (const std::exception &) { return 2; }
+    try { readFrom(is, dest); } catch (const std::exception &) { return 2; }
     return is.fail() ? 1 : 0;
 }
 
@@ -307,7 +330,7 @@ static std::vector<std::string> corruptTokens(std::vector<std::string> t, size_t
 }
 
 template <class T> static void runObject(const std::string & kind, Rng & rng, Shape sh, const T & x, const T & d0, const std::string & tier) {
-    std::ostringstream os; os << x;
+    std::ostringstream os; writeTo(os, x);
     const std::string text = os.str();
     const std::string d0bits = bitsOf(d0);
     const std::string head = kind + " " + std::to_string(sh.S) + " " + std::to_string(sh.A) + " " + std::to_string(sh.O);
@@ -318,6 +341,7 @@ template <class T> static void runObject(const std::string & kind, Rng & rng, Sh
         bool bitsame = sig == 0 && bitsOf(dest) == bitsOf(x);
         long dd = sig == 0 ? decisionDiffs(x, dest, rng, sh) : 0;
         Line l; l << "C17" << "rt" << head << "|" << hexOf(text) << "|" << exactOf(x) << "|" << (size_t)sig << bitsame << dd << (bitsOf(dest) == d0bits);
+        emitDecisions(l, x, sh);
         if (sig == 0) l << exactOf(dest);
         l.emit();
     }
@@ -384,14 +408,14 @@ static void witnessCopiedPolicy() {
 }
 
 static const int kWitnesses = 3;
-long verif::verif_ncases(const std::string & tier) { return kWitnesses + (tier == "thorough" ? 1000 : 60); }
+long verif::verif_ncases(const std::string & tier) { return kWitnesses + (tier == "thorough" ? 1100 : 110); }
 
 void verif::verif_case(Rng & rng, long idx, const std::string & tier) {
     if (idx == 0) { witnessPolicyPrecision(rng, tier); return; }
     if (idx == 1) { witnessSparseCount(rng, tier); return; }
     if (idx == 2) { witnessCopiedPolicy(); return; }
-    long k = (idx - kWitnesses) % 10;
-    int style = (int)(((idx - kWitnesses) / 10) % 2);       // alternate dyadic / ugly
+    long k = (idx - kWitnesses) % 11;
+    int style = (int)(((idx - kWitnesses) / 11) % 2);       // alternate dyadic / ugly
     Shape sh{(size_t)rng.range(1, 4), (size_t)rng.range(1, 3), (size_t)rng.range(1, 3)};
     if (tier == "thorough" && rng.coin(1, 6)) sh = Shape{(size_t)rng.range(4, 7), (size_t)rng.range(1, 4), (size_t)rng.range(1, 4)};
     std::printf("#stat style:%d 1\n", style);
@@ -406,7 +430,8 @@ void verif::verif_case(Rng & rng, long idx, const std::string & tier) {
         case 6: runKind<PO::Model<M::Model>>("pdd", rng, sh, style, tier); break;
         case 7: runKind<PO::SparseModel<M::SparseModel>>("pss", rng, sh, style, tier); break;
         case 8: runKind<PO::Model<M::SparseModel>>("pds", rng, sh, style, tier); break;
-        default: runKind<PO::SparseModel<M::Model>>("psd", rng, sh, style, tier); break;
+        case 9: runKind<PO::SparseModel<M::Model>>("psd", rng, sh, style, tier); break;
+        default: runKind<AI::Vector>("vec", rng, sh, style, tier); break;
     }
     std::printf("#stat load_good %ld\n#stat load_failbit %ld\n#stat load_threw %ld\n", g_good, g_fail, g_threw);
 }
